@@ -204,4 +204,31 @@ theorem val_row_iff (c : Comps S P Row) (cfg : Cfg) (picks : List Nat) (seed : N
     (i, p) ∈ (run c cfg picks seed ts).vals ↔ ∃ v ∈ valsOf ts, i = idOf (valsOf ts) v ∧ c.valParams v = .ok p :=
   val_row_iff' c cfg picks seed ts i p
 
+
+/-! ## phase 3: resumed runs -/
+
+/-- `MakeTasks` with a restored Result lists exactly the tasks of the fresh run whose id / key is not restored:
+ids and `copy` flags are those of the fresh run (this ties C01's id assignment to resuming, C02) -/
+theorem make_tasks_restored (R : Restored) (ts : List Triple) :
+    makeTasks R ts = (makeTasks .none ts).filter (Task.keep R) := makeTasks_restored R ts
+
+/-- `run_eq_spec_restored`: let any set `done` of tasks have been finished before an interruption, so that the log
+holds (in any order) the records they left; the run resumed from that log — under any configuration and schedule —
+returns the Result of the fresh run: same ids, same parameter rows, same interaction rows -/
+theorem run_eq_spec_restored (c : Comps S P Row) (cfg : Cfg) (picks : List Nat) (seed : Nat) (ts : List Triple)
+    (done : Task → Bool) (old : List (Rec P Row)) (hold : old.Perm (doneRecs c seed ts done)) :
+    runResumed c cfg picks seed ts old = resultS c seed ts := run_eq_spec_restored' c cfg picks seed ts done old hold
+
+/-- … in particular it equals the fresh run under any other configuration and schedule -/
+theorem resumed_eq_fresh (c : Comps S P Row) (cfg cfg' : Cfg) (picks picks' : List Nat) (seed : Nat) (ts : List Triple)
+    (done : Task → Bool) :
+    runResumed c cfg picks seed ts (doneRecs c seed ts done) = run c cfg' picks' seed ts := by
+  rw [run_eq_spec_restored' c cfg picks seed ts done _ (List.Perm.refl _), run_eq_spec']
+
+/-- the hypothesis is satisfiable non-trivially: everything done, nothing done, or only the evaluations -/
+example (c : Comps S P Row) (seed : Nat) (ts : List Triple) :
+    (doneRecs c seed ts (fun _ => false) : List (Rec P Row)) = [] := by simp [doneRecs]
+
+example : (doneRecs (leakyComps.clean leakyTriples) 1 leakyTriples (fun t => t.tkey.1 == 4)).length = 2 := by decide +kernel
+
 end Coba.C01
